@@ -204,6 +204,315 @@ theorem sim_startQ (hS : QSetting ca cb aa ab dt) (fcm : CanMsg) (hfc : FcFacts 
     rw [donesOf_rxNone, c6]; rfl
   · rw [e1]
 
+/-! ## rounds inside a transfer -/
+
+/-- where a round leads in which the sender's run ended in abstract state `a'`: the transfer goes on, or — message
+    complete — the chain over `rest` has been started -/
+def QNext (fcm : CanMsg) (del : List Bytes) (rest : List Msg) (id : Nat) (p : Bytes) : Abs → Pair → Prop
+  | .D, q' => QAfter ca cb aa ab dt fcm (del ++ [p]) rest q'
+  | .W k, q' => QLock ca cb aa ab dt fcm del rest id p (.W k) q'
+  | .T k j, q' => QLock ca cb aa ab dt fcm del rest id p (.T k j) q'
+  | .I, _ => False
+
+/-- the requests completed in that round -/
+def nextDones (id : Nat) (rest : List Msg) (a' : Abs) : List (Nat × Bool) :=
+  if a' = .D then (id, true) :: chainDones ca aa rest else []
+
+theorem donesOf_finA (r : AP × Nat × Bool) : donesOf (finA r).log = donesOf r.1.log := by
+  unfold finA; split
+  · simp
+  · rfl
+
+/-- A round in which the sender's pass is a run of Consecutive Frames from TRANSMIT_CF (entered in this pass or
+    before), with the requests of `rest` queued behind. -/
+theorem sim_runQ (hS : QSetting ca cb aa ab dt) (id : Nat) (p : Bytes) (h32 : p.length < 4294967296)
+    (hmax : p.length ≤ cb.maxFrameSize) (hff : NeedsFF (TxCfg.of ca aa) p.length) (fcm : CanMsg)
+    (hfc : FcFacts cb aa ab fcm) (del : List Bytes) (rest : List Msg) (hok : MsgOkB cb rest)
+    (q : Pair) (x x0 : AP) (y : BP) (k j f tB : Nat)
+    (hqa : q.a = mkA ca aa x) (hqb : q.b = mkB cb ab y) (hab : q.ab = []) (hba : q.ba = [])
+    (hA : ((mkA ca aa { x with now := q.now, log := [] }).process true true).1 =
+      mkA ca aa (endA ca aa rest (runA ca aa id p cb.blocksize f x0 k)))
+    (hc : TCondQ ca aa id p cb.blocksize (reqsOf ca rest) x0 k) (hj : x0.txBlockCnt = j)
+    (hto0 : x0.timerStmin.timeout = effOf ca cb)
+    (hto : x0.timerStmin.timedOut x0.now = true) (hib0 : x0.inbox = []) (hnow0 : x0.now = q.now)
+    (hlog0 : txsOf x0.log = []) (hne0 : NoErr x0.log) (hd0 : donesOf x0.log = [])
+    (hf : p.length - carried (TxCfg.of ca aa) p.length k < f)
+    (hsync : SyncT cb.blocksize k j)
+    (hyB : SessAtQ ca aa del p y (k - 1) tB) (hyt : q.now ≤ tB + gapOf ca cb dt) (hyib : y.inbox = []) :
+    QNext ca cb aa ab dt fcm del rest id p
+      (absRun (decide (effOf ca cb = 0)) cb.blocksize (nFrames (TxCfg.of ca aa) p) (nFrames (TxCfg.of ca aa) p) k j).1
+      (q.round dt).1 ∧
+    RoundOkQ dt q (nextDones ca aa id rest
+      (absRun (decide (effOf ca cb = 0)) cb.blocksize (nFrames (TxCfg.of ca aa) p) (nFrames (TxCfg.of ca aa) p) k j).1) := by
+  have hSc := hS.scen ca cb aa ab dt p h32 hmax
+  have hvt := valid_of ca aa hS.va
+  have hrs := hSc.rx ca cb aa ab p dt hff
+  have htCf := hS.tCf
+  have hk1 := hc.k1
+  have hkn := (lt_nFrames_iff _ hvt p hff k hk1).mpr hc.more
+  obtain ⟨r1, r2, r3, r4, r5, r6, r7, r8⟩ := runA_absQ ca aa id p cb.blocksize (reqsOf ca rest) (effOf ca cb) hS.va hff
+    (decide (effOf ca cb = 0)) rfl f (nFrames (TxCfg.of ca aa) p) x0 k hc hto0 hto hf (by omega)
+  rw [hj] at r1 r2 r5 r7
+  obtain ⟨s1, s2, s3, _⟩ := absRun_shape (decide (effOf ca cb = 0)) cb.blocksize (nFrames (TxCfg.of ca aa) p)
+    (nFrames (TxCfg.of ca aa) p) k j hk1 hkn (by omega) hsync
+  obtain ⟨f1, f2, f3, f4, f5, f6, f7, f8, f9, f10, f11, f12, f13, f14⟩ := finA_fields (runA ca aa id p cb.blocksize f x0 k)
+  have f15 := donesOf_finA (runA ca aa id p cb.blocksize f x0 k)
+  generalize hr : runA ca aa id p cb.blocksize f x0 k = r at *
+  generalize hab' : absRun (decide (effOf ca cb = 0)) cb.blocksize (nFrames (TxCfg.of ca aa) p)
+    (nFrames (TxCfg.of ca aa) p) k j = ar at *
+  obtain ⟨a', c⟩ := ar
+  simp only [] at r1 r2 r5 r7 s1 s2 s3 ⊢
+  obtain ⟨c, rfl⟩ : ∃ c', c = c' + 1 := ⟨c - 1, by omega⟩
+  obtain ⟨i, rfl⟩ : ∃ i, k = i + 1 := ⟨k - 1, by omega⟩
+  simp only [Nat.add_sub_cancel] at hyB
+  have hplain : PlainRun ca cb aa p i c := by
+    intro t ht
+    obtain ⟨h1, h2⟩ := s2 t (by omega)
+    have e1 : i + t + 2 = i + 1 + t + 1 := by omega
+    have e2 : i + t + 1 = i + 1 + t := by omega
+    rw [e1, e2]
+    exact ⟨(lt_nFrames_iff _ hvt p hff _ (by omega)).mp h1, h2⟩
+  cases a' with
+  | I => exact absurd s3 (by simp [Shape])
+  | D =>
+    simp only [Shape] at s3
+    have hlast : carried (TxCfg.of ca aa) p.length (i + c + 2) = p.length := by
+      have hn1 : 1 ≤ i + c + 1 := by omega
+      have hlt : carried (TxCfg.of ca aa) p.length (i + c + 1) < p.length :=
+        (lt_nFrames_iff _ hvt p hff _ hn1).mp (by omega)
+      exact (last_iff _ hvt p hff (i + c + 1) hn1 hlt).mpr (by omega)
+    obtain ⟨d1, d2, d3, d4, d5⟩ := r1
+    have hI : IdleA (reqsOf ca rest) r.1 := ⟨d1, d2, d3, d4, d5⟩
+    obtain ⟨c1, c2, c3, c4, c5, c6⟩ := chainA_spec ca aa hS.va rest r.1 hI (MsgOkB.toA cb hok)
+    have hE : endA ca aa rest r = chainA ca aa rest r.1 := by unfold endA; rw [if_pos d1]
+    rw [hE] at hA
+    generalize chainA ca aa rest r.1 = xc at *
+    have hnA : xc.now = q.now := by rw [c2, r3, hnow0]
+    have hxib : xc.inbox = [] := by rw [c3, r4, hib0]
+    have htx : txsOf xc.log = framesA ca aa p (i + 1) (c + 1) ++ chainFrames ca aa rest := by
+      rw [c4, r5, hlog0]; rfl
+    have hyin : SessAtQ ca aa del p
+        { y with now := q.now, log := [], inbox := y.inbox ++ toInbox (txsOf xc.log) } i tB :=
+      ⟨hyB.sess.congr ca aa p rfl rfl rfl rfl rfl rfl, hyB.pend, hyB.queue, hyB.timer⟩
+    have hyinb : ({ y with now := q.now, log := [], inbox := y.inbox ++ toInbox (txsOf xc.log) } : BP).inbox =
+        cfMsgs ca aa p (i + 1) (c + 1) ++ chainMsgs ca aa rest := by
+      show y.inbox ++ toInbox (txsOf xc.log) = _
+      rw [hyib, htx, toInbox_append, toInbox_framesA, chainMsgs_eq]; rfl
+    have hytm : ({ y with now := q.now, log := [], inbox := y.inbox ++ toInbox (txsOf xc.log) } : BP).now ≤
+        tB + cb.tCf := by show q.now ≤ _; omega
+    obtain ⟨y', hB, hPB, hnB, hib', hneB⟩ := passB_finalQ ca cb aa ab p hrs hS.listenB hSc.tCf0 fcm hfc.made rest hok del
+      _ i c tB hyin hytm rfl hyinb hplain hlast
+    obtain ⟨e1, e2, e3⟩ := round_eq ca cb aa ab dt q x xc y y' hqa hqb hab hba hA hnA hB hnB
+    refine ⟨?_, ?_, ?_, ?_, ?_⟩
+    · show QAfter ca cb aa ab dt fcm (del ++ [p]) rest (q.round dt).1
+      rw [e1]
+      exact after_assemble ca cb aa ab dt fcm q.now _ _ rest (del ++ [p]) xc y' c1 hPB hxib hib' hnA
+    · rw [e2]; exact NoErr_reverse (c5 (r6 hne0))
+    · rw [e3]; exact NoErr_reverse hneB
+    · rw [e2, doneEvs_reverse, c6, r7, hd0]
+      simp [nextDones]
+    · rw [e1]
+  | W k' =>
+    simp only [Shape] at s3
+    obtain ⟨hk', hk'n, hbnd, hsw⟩ := s3
+    obtain ⟨d1, d2, d3, d4, d5, d6, d7, d8⟩ := r1
+    have hE : endA ca aa rest r = finA r := by
+      unfold endA; rw [if_neg (by rw [d2]; intro h; cases h)]
+    rw [hE] at hA
+    have htx : txsOf (finA r).log = framesA ca aa p (i + 1) (c + 1) := by rw [f12, r5, hlog0]; rfl
+    have hnA : (finA r).now = q.now := by rw [f1, r3, hnow0]
+    have hyin : SessAtQ ca aa del p
+        { y with now := q.now, log := [], inbox := y.inbox ++ toInbox (txsOf (finA r).log) } i tB :=
+      ⟨hyB.sess.congr ca aa p rfl rfl rfl rfl rfl rfl, hyB.pend, hyB.queue, hyB.timer⟩
+    have hyinb : ({ y with now := q.now, log := [], inbox := y.inbox ++ toInbox (txsOf (finA r).log) } : BP).inbox =
+        cfMsgs ca aa p (i + 1) (c + 1) := by
+      show y.inbox ++ toInbox (txsOf (finA r).log) = _
+      rw [hyib, htx, toInbox_framesA]; rfl
+    have hytm : ({ y with now := q.now, log := [], inbox := y.inbox ++ toInbox (txsOf (finA r).log) } : BP).now ≤
+        tB + cb.tCf := by show q.now ≤ _; omega
+    have hmore : carried (TxCfg.of ca aa) p.length (i + c + 2) < p.length :=
+      (lt_nFrames_iff _ hvt p hff _ (by omega)).mp (by omega)
+    have hbnd' : 0 < cb.blocksize ∧ (i + c + 1) % cb.blocksize = 0 := by
+      have : k' - 1 = i + c + 1 := by omega
+      rw [this] at hbnd; exact hbnd
+    obtain ⟨y', hB, hSs, hnB, hib', htxB, hneB⟩ := passB_boundaryQ ca cb aa ab p hrs hS.listenB hSc.tCf0 fcm hfc.made del
+      _ i c tB hyin hytm rfl hyinb hplain hmore hbnd'
+    obtain ⟨e1, e2, e3⟩ := round_eq ca cb aa ab dt q x (finA r) y y' hqa hqb hab hba hA hnA hB hnB
+    refine ⟨⟨_, _, by rw [e1], by rw [e1], by rw [e1], by rw [e1], ?_, ?_⟩, ?_, ?_, ?_, ?_⟩
+    · rw [e1]
+      refine ⟨d1, by rw [← d2]; exact f2, ⟨q.now, ?_, Nat.le_refl _⟩, by rw [← d4]; exact f4, d5, by rw [← d6]; exact f5,
+        by rw [← d7]; exact f3, ?_, hsw⟩
+      · show (finA r).timerFc = _
+        rw [f8, d3, r3, hnow0]
+      · show (finA r).inbox ++ toInbox (txsOf y'.log) = _
+        rw [f11, r4, hib0, htxB]; rfl
+    · rw [e1]
+      refine ⟨q.now, ?_, Nat.le_refl _, hib'⟩
+      have : k' - 1 = i + c + 1 := by omega
+      rw [this]
+      exact ⟨hSs.sess.congr ca aa p rfl rfl rfl rfl rfl rfl, hSs.pend, hSs.queue, hSs.timer⟩
+    · rw [e2]; exact NoErr_reverse (f13 (r6 hne0))
+    · rw [e3]; exact NoErr_reverse hneB
+    · rw [e2, doneEvs_reverse, f15, r7, hd0]
+      simp [nextDones]
+    · rw [e1]
+  | T k' j' =>
+    simp only [Shape] at s3
+    obtain ⟨hk', hk'n, hbnd, hst⟩ := s3
+    obtain ⟨d1, d2, d3⟩ := r1
+    have hE : endA ca aa rest r = finA r := by
+      unfold endA; rw [if_neg (by rw [d1.st]; intro h; cases h)]
+    rw [hE] at hA
+    have htx : txsOf (finA r).log = framesA ca aa p (i + 1) (c + 1) := by rw [f12, r5, hlog0]; rfl
+    have hnA : (finA r).now = q.now := by rw [f1, r3, hnow0]
+    have hyin : SessAtQ ca aa del p
+        { y with now := q.now, log := [], inbox := y.inbox ++ toInbox (txsOf (finA r).log) } i tB :=
+      ⟨hyB.sess.congr ca aa p rfl rfl rfl rfl rfl rfl, hyB.pend, hyB.queue, hyB.timer⟩
+    have hyinb : ({ y with now := q.now, log := [], inbox := y.inbox ++ toInbox (txsOf (finA r).log) } : BP).inbox =
+        cfMsgs ca aa p (i + 1) (c + 1) := by
+      show y.inbox ++ toInbox (txsOf (finA r).log) = _
+      rw [hyib, htx, toInbox_framesA]; rfl
+    have hytm : ({ y with now := q.now, log := [], inbox := y.inbox ++ toInbox (txsOf (finA r).log) } : BP).now ≤
+        tB + cb.tCf := by show q.now ≤ _; omega
+    have hmore : carried (TxCfg.of ca aa) p.length (i + c + 2) < p.length :=
+      (lt_nFrames_iff _ hvt p hff _ (by omega)).mp (by omega)
+    have hbnd' : ¬ (0 < cb.blocksize ∧ (i + c + 1) % cb.blocksize = 0) := by
+      have : k' - 1 = i + c + 1 := by omega
+      rw [this] at hbnd; exact hbnd
+    obtain ⟨y', hB, hSs, hnB, hib', htxB, hneB⟩ := passB_plainQ ca cb aa ab p hrs hSc.tCf0 del _ i c tB
+      hyin hytm rfl hyinb hplain hmore hbnd'
+    obtain ⟨e1, e2, e3⟩ := round_eq ca cb aa ab dt q x (finA r) y y' hqa hqb hab hba hA hnA hB hnB
+    refine ⟨⟨_, _, by rw [e1], by rw [e1], by rw [e1], by rw [e1], ?_, ?_⟩, ?_, ?_, ?_, ?_⟩
+    · rw [e1]
+      refine ⟨⟨d1.k1, by rw [← d1.st]; exact f2, by rw [← d1.lf]; exact f10, by rw [← d1.tf]; exact f8,
+        by rw [← d1.act]; exact f4, d1.more, by rw [← d1.seq]; exact f5, by rw [← d1.rbs]; exact f7,
+        by rw [← d1.txq]; exact f3⟩, by rw [← d2]; exact f6, ⟨q.now, ?_, ?_⟩, ?_, hst⟩
+      · show (finA r).timerStmin = _
+        rw [f9, d3, r3, hnow0]
+      · have := hS.sep
+        show q.now + effOf ca cb < q.now + dt
+        omega
+      · show (finA r).inbox ++ toInbox (txsOf y'.log) = _
+        rw [f11, r4, hib0, htxB]; rfl
+    · rw [e1]
+      refine ⟨q.now, ?_, (by show q.now + dt ≤ q.now + gapOf ca cb dt; have := gapOf_ge ca cb dt; omega), hib'⟩
+      have : k' - 1 = i + c + 1 := by omega
+      rw [this]
+      exact ⟨hSs.sess.congr ca aa p rfl rfl rfl rfl rfl rfl, hSs.pend, hSs.queue, hSs.timer⟩
+    · rw [e2]; exact NoErr_reverse (f13 (r6 hne0))
+    · rw [e3]; exact NoErr_reverse hneB
+    · rw [e2, doneEvs_reverse, f15, r7, hd0]
+      simp [nextDones]
+    · rw [e1]
+
+/-- a round that starts with the sender in TRANSMIT_CF -/
+theorem sim_TQ (hS : QSetting ca cb aa ab dt) (id : Nat) (p : Bytes) (h32 : p.length < 4294967296)
+    (hmax : p.length ≤ cb.maxFrameSize) (hff : NeedsFF (TxCfg.of ca aa) p.length) (fcm : CanMsg)
+    (hfc : FcFacts cb aa ab fcm) (del : List Bytes) (rest : List Msg) (hok : MsgOkB cb rest) (q : Pair) (k j : Nat)
+    (h : QLock ca cb aa ab dt fcm del rest id p (.T k j) q) :
+    QNext ca cb aa ab dt fcm del rest id p
+      (absStep (decide (effOf ca cb = 0)) cb.blocksize (nFrames (TxCfg.of ca aa) p) (.T k j)) (q.round dt).1 ∧
+    RoundOkQ dt q (nextDones ca aa id rest
+      (absStep (decide (effOf ca cb = 0)) cb.blocksize (nFrames (TxCfg.of ca aa) p) (.T k j))) := by
+  obtain ⟨x, y, hqa, hqb, hab, hba, ⟨hc, hj, ⟨tS, htS, htSn⟩, hib, hsync⟩, ⟨tB, hyB, hyt, hyib⟩⟩ := h
+  have htFc0 : ca.tFc ≠ 0 := by have := hS.tFc; have := hS.sep; omega
+  have hc1 : TCondQ ca aa id p cb.blocksize (reqsOf ca rest) { x with now := q.now, log := [] } k :=
+    ⟨hc.k1, hc.st, hc.lf, hc.tf, hc.act, hc.more, hc.seq, hc.rbs, hc.txq⟩
+  have hA := passA_TQ ca aa id p cb.blocksize hS.va htFc0 rest (MsgOkB.toA cb hok) { x with now := q.now, log := [] } k hc1 hib
+  have hc0 : TCondQ ca aa id p cb.blocksize (reqsOf ca rest) { x with now := q.now, log := [.rxNone q.now] } k :=
+    ⟨hc.k1, hc.st, hc.lf, hc.tf, hc.act, hc.more, hc.seq, hc.rbs, hc.txq⟩
+  exact sim_runQ ca cb aa ab dt hS id p h32 hmax hff fcm hfc del rest hok q x _ y k j _ tB hqa hqb hab hba hA hc0 hj
+    (by show x.timerStmin.timeout = _; rw [htS])
+    (by show x.timerStmin.timedOut q.now = true; rw [htS]; exact timedOut_after _ _ _ htSn)
+    hib rfl (by simp [txsOf_nil]) (NoErr_cons NoErr_nil (by intro t e h; cases h)) (by simp [donesOf_nil])
+    (by omega) hsync hyB hyt hyib
+
+/-- a round that starts with the sender waiting for the Flow Control that is in its inbox -/
+theorem sim_WQ (hS : QSetting ca cb aa ab dt) (id : Nat) (p : Bytes) (h32 : p.length < 4294967296)
+    (hmax : p.length ≤ cb.maxFrameSize) (hff : NeedsFF (TxCfg.of ca aa) p.length) (fcm : CanMsg)
+    (hfc : FcFacts cb aa ab fcm) (del : List Bytes) (rest : List Msg) (hok : MsgOkB cb rest) (q : Pair) (k : Nat)
+    (h : QLock ca cb aa ab dt fcm del rest id p (.W k) q) :
+    QNext ca cb aa ab dt fcm del rest id p
+      (absStep (decide (effOf ca cb = 0)) cb.blocksize (nFrames (TxCfg.of ca aa) p) (.W k)) (q.round dt).1 ∧
+    RoundOkQ dt q (nextDones ca aa id rest
+      (absStep (decide (effOf ca cb = 0)) cb.blocksize (nFrames (TxCfg.of ca aa) p) (.W k))) := by
+  obtain ⟨x, y, hqa, hqb, hab, hba, ⟨hk, hst, ⟨tF, htF, htFn⟩, hact, hmore, hseq, hq, hib, hsync⟩,
+    ⟨tB, hyB, hyt, hyib⟩⟩ := h
+  obtain ⟨cdl, rdl, hdec⟩ := hfc.dec
+  have htFc := hS.tFc
+  have htFc0 : ca.tFc ≠ 0 := by have := hS.sep; omega
+  have htCf0 : cb.tCf ≠ 0 := by
+    have := hS.tCf; have := hS.sep; have := gapOf_ge ca cb dt; omega
+  have hA : ((mkA ca aa { x with now := q.now, log := [] }).process true true).1 =
+      mkA ca aa (endA ca aa rest (runA ca aa id p cb.blocksize (p.length - carried (TxCfg.of ca aa) p.length k + 1)
+        (apAfterFc x q.now fcm cb.blocksize (effOf ca cb)) k)) :=
+    passA_WQ ca aa id p cb.blocksize hS.va htFc0 rest (MsgOkB.toA cb hok) { x with now := q.now, log := [] } k tF
+      cb.stmin cdl rdl fcm hk hst htF (by show q.now ≤ _; omega) hact hmore hseq hq hib hfc.me hdec
+  have hc0 : TCondQ ca aa id p cb.blocksize (reqsOf ca rest) (apAfterFc x q.now fcm cb.blocksize (effOf ca cb)) k :=
+    ⟨hk, rfl, rfl, rfl, hact, hmore, hseq, rfl, hq⟩
+  unfold absStep
+  by_cases hz : effOf ca cb = 0
+  · simp only [hz, decide_true, if_true]
+    have := sim_runQ ca cb aa ab dt hS id p h32 hmax hff fcm hfc del rest hok q x _ y k 0 _ tB hqa hqb hab hba hA hc0 rfl rfl
+      (by show ({ start := some q.now, timeout := effOf ca cb } : Timer).timedOut q.now = true
+          rw [timedOut_started]; simp [hz])
+      rfl rfl (by simp [apAfterFc, txsOf_nil]) (NoErr_cons NoErr_nil (by intro t e h; cases h))
+      (by simp [apAfterFc, donesOf_nil]) (by omega)
+      hsync.toT hyB (by have := gapOf_ge ca cb dt; omega) hyib
+    simpa only [hz, decide_true] using this
+  · simp only [hz, decide_false, Bool.false_eq_true, if_false]
+    -- the separation time has just started: nothing is sent in this round
+    have hrun : runA ca aa id p cb.blocksize (p.length - carried (TxCfg.of ca aa) p.length k + 1)
+        (apAfterFc x q.now fcm cb.blocksize (effOf ca cb)) k =
+        (apAfterFc x q.now fcm cb.blocksize (effOf ca cb), 0, false) := by
+      unfold runA
+      have : (apAfterFc x q.now fcm cb.blocksize (effOf ca cb)).timerStmin.timedOut
+          (apAfterFc x q.now fcm cb.blocksize (effOf ca cb)).now = false := by
+        show ({ start := some q.now, timeout := effOf ca cb } : Timer).timedOut q.now = false
+        rw [timedOut_started]; simp [hz]
+      simp only [this, Bool.false_eq_true, if_false]
+    have hA' : ((mkA ca aa { x with now := q.now, log := [] }).process true true).1 =
+        mkA ca aa (apAfterFc x q.now fcm cb.blocksize (effOf ca cb)) := by
+      rw [hA, hrun]; rfl
+    have htCf := hS.tCf
+    have hge := gapOf_ge ca cb dt
+    have hgap : gapOf ca cb dt = 2 * dt := by simp [gapOf, hz]
+    have hB := passB_quiet cb ab
+      { y with now := q.now, log := [],
+               inbox := y.inbox ++ toInbox (txsOf (apAfterFc x q.now fcm cb.blocksize (effOf ca cb)).log) }
+      (by show y.inbox ++ toInbox (txsOf [Ev.rx q.now fcm]) = []; rw [hyib]; rfl)
+      (Or.inr ⟨tB, hyB.timer, by show q.now ≤ _; omega, htCf0⟩) hyB.pend
+    obtain ⟨e1, e2, e3⟩ := round_eq ca cb aa ab dt q x _ y _ hqa hqb hab hba hA' rfl hB rfl
+    have hsep := hS.sep
+    refine ⟨⟨_, _, by rw [e1], by rw [e1], by rw [e1], by rw [e1], ?_, ?_⟩, ?_, ?_, ?_, ?_⟩
+    · rw [e1]
+      exact ⟨⟨hc0.k1, hc0.st, hc0.lf, hc0.tf, hc0.act, hc0.more, hc0.seq, hc0.rbs, hc0.txq⟩, rfl,
+        ⟨q.now, rfl, by show q.now + effOf ca cb < q.now + dt; omega⟩, rfl, hsync.toT⟩
+    · rw [e1]
+      exact ⟨tB, ⟨hyB.sess.congr ca aa p rfl rfl rfl rfl rfl rfl, hyB.pend, hyB.queue, hyB.timer⟩,
+        by show q.now + dt ≤ _; omega, by show y.inbox ++ _ = []; rw [hyib]; rfl⟩
+    · rw [e2]; exact NoErr_reverse (NoErr_cons NoErr_nil (by intro t e h; cases h))
+    · rw [e3]; exact NoErr_reverse (NoErr_cons NoErr_nil (by intro t e h; cases h))
+    · rw [e2]; rfl
+    · rw [e1]
+
+/-- **One concrete round is one abstract step, with a queue**: from `QLock … a` (`a = W k` or `T k j`) the round
+    leads to `QLock … (absStep a)`, or — if the step completes the message — to the state after the chain over
+    `rest`, and reports exactly the requests completed. -/
+theorem round_simQ (hS : QSetting ca cb aa ab dt) (id : Nat) (p : Bytes) (h32 : p.length < 4294967296)
+    (hmax : p.length ≤ cb.maxFrameSize) (hff : NeedsFF (TxCfg.of ca aa) p.length) (fcm : CanMsg)
+    (hfc : FcFacts cb aa ab fcm) (del : List Bytes) (rest : List Msg) (hok : MsgOkB cb rest) (a : Abs) (q : Pair)
+    (h : QLock ca cb aa ab dt fcm del rest id p a q) :
+    QNext ca cb aa ab dt fcm del rest id p
+      (absStep (decide (effOf ca cb = 0)) cb.blocksize (nFrames (TxCfg.of ca aa) p) a) (q.round dt).1 ∧
+    RoundOkQ dt q (nextDones ca aa id rest
+      (absStep (decide (effOf ca cb = 0)) cb.blocksize (nFrames (TxCfg.of ca aa) p) a)) := by
+  cases a with
+  | I => obtain ⟨x, y, -, -, -, -, hA, -⟩ := h; exact absurd hA (by simp [LockAQ])
+  | D => obtain ⟨x, y, -, -, -, -, hA, -⟩ := h; exact absurd hA (by simp [LockAQ])
+  | W k => exact sim_WQ ca cb aa ab dt hS id p h32 hmax hff fcm hfc del rest hok q k h
+  | T k j => exact sim_TQ ca cb aa ab dt hS id p h32 hmax hff fcm hfc del rest hok q k j h
+
 end sim
 
 end Isotp.LockstepQ
